@@ -3,53 +3,93 @@ vs  Model/Sim.v instantiated with the exact simulator Common/QSim.v (evaluated i
 and vs an independent numpy density-matrix branch simulator (judge / oracle).
 
 JSON case:
-  kind   : "sim" | "tol"
-  nq, ncl, qregs, cregs        circuit shape (register sizes; indices in `prog` are global bit indices)
+  kind   : "sim" | "tol" | "multi"
+  nq, ncl                      number of qubits / clbits (indices in `prog` are global bit indices)
+  qregs, cregs                 bit layout: list of ["r", n] (a register of n bits) | ["b", n] (n bare bits); an int n = ["r", n]
   prog   : list of
-            ["g", name, [qubits]]            gate of the exactly representable set
+            ["g", name, [qubits]]            gate of the exactly representable set (x y z h s sdg sx sxdg cx cz swap ccx)
+            ["comp", [[name, [local qubits]] ...], [qubits]]   sub-circuit of such gates appended as ONE composite gate (to_gate)
             ["measure", q, c] ["reset", q] ["barrier", [qubits]]
             ["u", [[re, im] ...] row-major, [qubits]]   arbitrary unitary (tol stream)
             ["ry", theta, q]                            (tol stream)
+            ["rxp"|"ryp"|"rzp", pname, q]               parametrised rotation (multi stream); value in case["params"][pname]
             ["cif", name, [qubits], c, val]             gate.c_if(clbit c, val)
             ["cifreg", name, [qubits], reg, val]        gate.c_if(classical register, val)
             ["cifmeasure", q, c, c2, val]               measure(q, c).c_if(clbit c2, val)
+            ["cifreset", q, c, val]                     reset(q).c_if(clbit c, val)
             ["ifelse", c, val, name, [qubits]]          with qc.if_test((clbit c, val)): gate
+            ["ifelse2", c, val, name, [qubits], name2]  if_test with an else branch
+            ["ifexpr", c, name, [qubits]]               with qc.if_test(expr.logic_not(clbit c)): gate
+            ["while", c, val, q]                        with qc.while_loop((clbit c, val)): x(q); measure(q, c)
+            ["switch", c, name, [qubits]]               with qc.switch(clbit c): case(0): gate
             ["clgate", [qubits], [clbits]]              opaque Instruction holding clbits
   impl_fn, impl_sampler : ["ok", [[outcome, float] ...] in dict order] | ["refused", msg] | ["crashed", msg]
+  multi  : circuits = [sub-case ...] (each with nq ncl qregs cregs prog params), impl_multi = ["ok", [dist ...]] | ...
 """
 from __future__ import annotations
 
 from fractions import Fraction
 
 import numpy as np
-from qiskit.circuit import QuantumCircuit, QuantumRegister, ClassicalRegister, Instruction
+from qiskit.circuit import QuantumCircuit, QuantumRegister, ClassicalRegister, Instruction, Parameter, Qubit, Clbit
 from qiskit.circuit.library import UnitaryGate
 
 from qiskit_addon_cutting.utils.simulation import simulate_statevector_outcomes, ExactSampler
 
-from common import CaseWriter, Res, Raw, Nc, Qc, call_canon, coq
+from common import CaseWriter, Res, Raw, Nc, Qc, Opt, call_canon, coq
 
 IMPORTS = ("From Coq Require Import QArith.\nFrom CKT Require Import Common.Base Common.QSim Model.Sim Corr.C13Corr.\n"
            "Close Scope Q_scope.")
-CASE_TYPES = {"chk_sim": "sim_case", "chk_dist": "res (list (N * Q)) * list (N * Q)"}
+CASE_TYPES = {
+    "chk_sim": "sim_case",
+    "chk_dist": "res (list (N * Q)) * option (res (list (N * Q))) * list (N * Q)",
+    "chk_multi": "res (list (list (N * Q))) * list (list (N * Q))",
+}
 
 G1 = ["x", "y", "z", "h", "s", "sdg", "sx", "sxdg"]
 G2 = ["cx", "cz", "swap"]
-COQ_GATE = {g: "G" + g for g in G1 + G2}
+G3 = ["ccx"]
+COQ_GATE = {g: "G" + g for g in G1 + G2 + G3}
+CONDITIONED = ("cif", "cifreg", "cifmeasure", "cifreset", "ifelse", "ifelse2", "ifexpr", "while", "switch")
 
 
 # ----------------------------------------------------------------------------------------------
 # circuit construction from the JSON program
 # ----------------------------------------------------------------------------------------------
+def _layout(spec, regcls, bitcls, prefix):
+    regs, items = [], []
+    for i, e in enumerate(spec):
+        kind, n = ("r", e) if isinstance(e, int) else e
+        if kind == "r":
+            r = regcls(n, f"{prefix}{i}")
+            regs.append(r)
+            items.append(r)
+        else:
+            items.append([bitcls() for _ in range(n)])
+    return regs, items
+
+
 def build(case) -> QuantumCircuit:
-    regs = [QuantumRegister(s, f"q{i}") for i, s in enumerate(case["qregs"])]
-    cregs = [ClassicalRegister(s, f"c{i}") for i, s in enumerate(case["cregs"])]
-    qc = QuantumCircuit(*regs, *cregs)
+    _, qitems = _layout(case["qregs"], QuantumRegister, Qubit, "q")
+    cregs, citems = _layout(case["cregs"], ClassicalRegister, Clbit, "c")
+    qc = QuantumCircuit(*qitems, *citems)
     assert qc.num_qubits == case["nq"] and qc.num_clbits == case["ncl"]
+    params = {}
+
+    def par(name):
+        if name not in params:
+            params[name] = Parameter(name)
+        return params[name]
+
     for ins in case["prog"]:
         k = ins[0]
         if k == "g":
             getattr(qc, ins[1])(*ins[2])
+        elif k == "comp":
+            sub = QuantumCircuit(len(ins[2]))
+            for name, qs in ins[1]:
+                getattr(sub, name)(*qs)
+            qc.append(sub.to_gate(label="comp"), ins[2])
         elif k == "measure":
             qc.measure(ins[1], ins[2])
         elif k == "reset":
@@ -62,15 +102,37 @@ def build(case) -> QuantumCircuit:
             qc.append(UnitaryGate(m.reshape(d, d), check_input=False), ins[2])
         elif k == "ry":
             qc.ry(ins[1], ins[2])
+        elif k in ("rxp", "ryp", "rzp"):
+            getattr(qc, k[:2])(par(ins[1]), ins[2])
         elif k == "cif":
             getattr(qc, ins[1])(*ins[2]).c_if(qc.clbits[ins[3]], ins[4])
         elif k == "cifreg":
             getattr(qc, ins[1])(*ins[2]).c_if(cregs[ins[3]], ins[4])
         elif k == "cifmeasure":
             qc.measure(ins[1], ins[2]).c_if(qc.clbits[ins[3]], ins[4])
+        elif k == "cifreset":
+            qc.reset(ins[1]).c_if(qc.clbits[ins[2]], ins[3])
         elif k == "ifelse":
             with qc.if_test((qc.clbits[ins[1]], ins[2])):
                 getattr(qc, ins[3])(*ins[4])
+        elif k == "ifelse2":
+            with qc.if_test((qc.clbits[ins[1]], ins[2])) as else_:
+                getattr(qc, ins[3])(*ins[4])
+            with else_:
+                getattr(qc, ins[5])(*ins[4])
+        elif k == "ifexpr":
+            from qiskit.circuit.classical import expr
+
+            with qc.if_test(expr.logic_not(qc.clbits[ins[1]])):
+                getattr(qc, ins[2])(*ins[3])
+        elif k == "while":
+            with qc.while_loop((qc.clbits[ins[1]], ins[2])):
+                qc.x(ins[3])
+                qc.measure(ins[3], ins[1])
+        elif k == "switch":
+            with qc.switch(qc.clbits[ins[1]]) as case_:
+                with case_(0):
+                    getattr(qc, ins[2])(*ins[3])
         elif k == "clgate":
             qc.append(Instruction("foo", len(ins[1]), len(ins[2]), []), ins[1], ins[2])
         else:
@@ -78,15 +140,33 @@ def build(case) -> QuantumCircuit:
     return qc
 
 
-def run_impl(case):
+def _dist(r):
+    return ["ok", [[int(k), float(v)] for k, v in r[1].items()]] if r[0] == "ok" else [r[0], r[1]]
+
+
+def run_impl(case, sampler=None):
+    if case["kind"] == "multi":
+        return run_multi(case, sampler)
     qc = build(case)
-    r = call_canon(simulate_statevector_outcomes, qc)
-    fn = ["ok", [[int(k), float(v)] for k, v in r[1].items()]] if r[0] == "ok" else [r[0], r[1]]
+    case["impl_fn"] = _dist(call_canon(simulate_statevector_outcomes, qc))
     qc2 = build(case)
-    r2 = call_canon(lambda: ExactSampler().run([qc2]).result().quasi_dists[0])
-    sam = ["ok", [[int(k), float(v)] for k, v in r2[1].items()]] if r2[0] == "ok" else [r2[0], r2[1]]
-    case["impl_fn"] = fn
-    case["impl_sampler"] = sam
+    s = sampler if sampler is not None else ExactSampler()
+    case["impl_sampler"] = _dist(call_canon(lambda: s.run([qc2]).result().quasi_dists[0]))
+    return case
+
+
+def run_multi(case, sampler=None):
+    s = sampler if sampler is not None else ExactSampler()
+    circs, vals = [], []
+    for sub in case["circuits"]:
+        qc = build(sub)
+        circs.append(qc)
+        vals.append([sub["params"][p.name] for p in qc.parameters])   # Qiskit binds a sequence in circuit.parameters order
+    r = call_canon(lambda: s.run(circs, vals).result().quasi_dists)
+    if r[0] == "ok":
+        case["impl_multi"] = ["ok", [[[int(k), float(v)] for k, v in d.items()] for d in r[1]]]
+    else:
+        case["impl_multi"] = [r[0], r[1]]
     return case
 
 
@@ -106,17 +186,36 @@ _M1 = {
 }
 
 
-def _m2(name):
-    m = np.zeros((4, 4), complex)
-    for i in range(4):
-        a, b = i & 1, (i >> 1) & 1  # a = first qubit argument, b = second
+def _perm_gate(name):
+    """matrix of cx / cz / swap / ccx by its action on basis states; bit j of the index = j-th qubit argument"""
+    k = 3 if name == "ccx" else 2
+    m = np.zeros((1 << k, 1 << k), complex)
+    for i in range(1 << k):
+        a, b = i & 1, (i >> 1) & 1
         if name == "cx":  # a control, b target
             m[a | ((b ^ a) << 1), i] = 1
         elif name == "cz":
             m[i, i] = -1 if (a and b) else 1
         elif name == "swap":
             m[b | (a << 1), i] = 1
+        elif name == "ccx":  # a, b controls, third argument target
+            m[i ^ (4 if (a and b) else 0), i] = 1
+        else:
+            raise ValueError(name)
     return m
+
+
+def _gate_matrix(name):
+    return _M1[name] if name in _M1 else _perm_gate(name)
+
+
+def _rot(axis, t):
+    c, s = np.cos(t / 2), np.sin(t / 2)
+    if axis == "x":
+        return np.array([[c, -1j * s], [-1j * s, c]], complex)
+    if axis == "y":
+        return np.array([[c, -s], [s, c]], complex)
+    return np.array([[np.exp(-1j * t / 2), 0], [0, np.exp(1j * t / 2)]], complex)
 
 
 def _full(u, qs, n):
@@ -133,7 +232,25 @@ def _full(u, qs, n):
 
 
 def is_conditioned(ins):
-    return ins[0] in ("cif", "cifreg", "cifmeasure", "ifelse")
+    return ins[0] in CONDITIONED
+
+
+def _unitaries(ins, params):
+    """list of (matrix, qubits) for a unitary instruction of the property's domain"""
+    k = ins[0]
+    if k == "g":
+        return [(_gate_matrix(ins[1]), ins[2])]
+    if k == "comp":
+        return [(_gate_matrix(name), [ins[2][q] for q in qs]) for name, qs in ins[1]]
+    if k == "u":
+        v = np.array([complex(a, b) for a, b in ins[1]])
+        d = int(round(np.sqrt(len(v))))
+        return [(v.reshape(d, d), ins[2])]
+    if k == "ry":
+        return [(_rot("y", ins[1]), [ins[2]])]
+    if k in ("rxp", "ryp", "rzp"):
+        return [(_rot(k[1], params[ins[1]]), [ins[2]])]
+    return None
 
 
 def true_distribution(case):
@@ -147,19 +264,11 @@ def true_distribution(case):
         k = ins[0]
         if k == "barrier":
             continue
-        if k in ("g", "u", "ry"):
-            if k == "g":
-                u = _M1[ins[1]] if ins[1] in _M1 else _m2(ins[1])
-                qs = ins[2]
-            elif k == "u":
-                v = np.array([complex(a, b) for a, b in ins[1]])
-                d = int(round(np.sqrt(len(v))))
-                u, qs = v.reshape(d, d), ins[2]
-            else:
-                t = ins[1] / 2
-                u, qs = np.array([[np.cos(t), -np.sin(t)], [np.sin(t), np.cos(t)]], complex), [ins[2]]
-            f = _full(u, qs, n)
-            cur = {o: f @ r @ f.conj().T for o, r in cur.items()}
+        us = _unitaries(ins, case.get("params", {}))
+        if us is not None:
+            for u, qs in us:
+                f = _full(u, qs, n)
+                cur = {o: f @ r @ f.conj().T for o, r in cur.items()}
             continue
         if k in ("measure", "reset"):
             q = ins[1]
@@ -187,8 +296,12 @@ def true_distribution(case):
 def _judge_answer(ans, truth, who):
     if ans[0] != "ok":
         return f"{who}: valid circuit not answered ({ans[0]}: {ans[1]})"
+    return _judge_dist(ans[1], truth, who)
+
+
+def _judge_dist(pairs, truth, who):
     got = {}
-    for o, p in ans[1]:
+    for o, p in pairs:
         if o in got:
             return f"{who}: duplicate outcome {o}"
         got[o] = p
@@ -202,25 +315,43 @@ def _judge_answer(ans, truth, who):
 
 
 def judge(case):
+    """Property-level oracle.  Domain = the property's quantifier: circuits of unitary gates (incl. composites of
+    unitaries), barriers, measurements, resets -> every outcome's true probability, sum one; circuits with a
+    classically conditioned operation -> must be REFUSED (ValueError), anything else (an answer or another
+    exception) violates.  Opaque operations holding clbits are outside the property (never flagged)."""
+    if case["kind"] == "multi":
+        ans = case["impl_multi"]
+        if ans[0] != "ok":
+            return dict(violates=True, detail=f"ExactSampler.run over {len(case['circuits'])} valid circuits not answered ({ans[0]}: {ans[1]})")
+        if len(ans[1]) != len(case["circuits"]):
+            return dict(violates=True, detail=f"{len(ans[1])} distributions for {len(case['circuits'])} circuits")
+        for i, (sub, pairs) in enumerate(zip(case["circuits"], ans[1])):
+            d = _judge_dist(pairs, true_distribution(sub), f"ExactSampler quasi_dists[{i}]")
+            if d:
+                return dict(violates=True, detail=d)
+        return dict(violates=False, detail="every quasi_dists[i] matches the density-matrix oracle of the i-th bound circuit")
     prog = case["prog"]
     fn, sam = case["impl_fn"], case["impl_sampler"]
     if any(is_conditioned(i) for i in prog):
-        bad = [w for w, a in (("simulate_statevector_outcomes", fn), ("ExactSampler", sam)) if a[0] == "ok"]
-        return dict(violates=bool(bad), detail=("conditioned circuit answered by " + ", ".join(bad)) if bad
-                    else f"conditioned circuit not answered ({fn[0]}/{sam[0]})")
+        bad = [f"{w} ({a[0]})" for w, a in (("simulate_statevector_outcomes", fn), ("ExactSampler", sam)) if a[0] != "refused"]
+        return dict(violates=bool(bad), detail=("conditioned circuit not refused with ValueError by " + ", ".join(bad) + f": {fn[1]!r:.200}") if bad
+                    else "conditioned circuit refused")
     if any(i[0] == "clgate" for i in prog):
         return dict(violates=False, detail=f"operation with a classical bit: outside the property's domain (got {fn[0]}/{sam[0]})")
     truth = true_distribution(case)
     d = _judge_answer(fn, truth, "simulate_statevector_outcomes")
     if d is None:
-        has_measure = any(i[0] == "measure" for i in prog)
-        if sam[0] == "refused" and (case["ncl"] == 0 or not has_measure):
+        if sam[0] == "refused" and sampler_prevalidation_refuses(case):
             # BaseSamplerV1.run (Qiskit) rejects circuits without classical bits / without a Measure before
             # ExactSampler._call is reached; the repository code is not involved.
             d = None
         else:
             d = _judge_answer(sam, truth, "ExactSampler")
     return dict(violates=d is not None, detail=d or "matches the density-matrix oracle")
+
+
+def sampler_prevalidation_refuses(case):
+    return case["ncl"] == 0 or not any(i[0] == "measure" for i in case["prog"])
 
 
 def rerun(case):
@@ -240,6 +371,9 @@ def coq_prog(prog):
         k = ins[0]
         if k == "g":
             out.append(f"G {COQ_GATE[ins[1]]} {nat_list(ins[2])}")
+        elif k == "comp":   # the model has no composite constructor: a composite of unitaries is its definition, inlined
+            for name, qs in ins[1]:
+                out.append(f"G {COQ_GATE[name]} {nat_list([ins[2][q] for q in qs])}")
         elif k == "measure":
             out.append(f"M {ins[1]} {ins[2]}")
         elif k == "reset":
@@ -255,9 +389,13 @@ def coq_prog(prog):
     return Raw("[" + "; ".join(out) + "]")
 
 
+def coq_pairs(pairs):
+    return [(Nc(o), Qc(Fraction(p))) for o, p in pairs]
+
+
 def coq_answer(ans):
     if ans[0] == "ok":
-        return Res("ok", [(Nc(o), Qc(Fraction(p))) for o, p in ans[1]])
+        return Res("ok", coq_pairs(ans[1]))
     return Res(ans[0])
 
 
@@ -265,16 +403,47 @@ def coq_answer(ans):
 # generators
 # ----------------------------------------------------------------------------------------------
 def split_regs(rng, n):
-    if n >= 2 and rng.integers(0, 3) == 0:
-        a = int(rng.integers(1, n))
-        return [a, n - a]
-    return [n] if n > 0 else []
+    """bit layout: registers and bare bits, 1..3 groups"""
+    if n == 0:
+        return []
+    r = rng.random()
+    groups = 1 if (n == 1 or r < 0.55) else (2 if (n == 2 or r < 0.85) else 3)
+    cuts = sorted(int(c) for c in rng.choice(np.arange(1, n), size=groups - 1, replace=False)) if groups > 1 else []
+    sizes = [b - a for a, b in zip([0] + cuts, cuts + [n])]
+    return [["b" if rng.random() < 0.2 else "r", s] for s in sizes]
+
+
+def rand_gate(rng, nq, mode):
+    r = rng.random()
+    if nq >= 3 and mode != "clifford" and r < 0.08:
+        return ["g", "ccx", [int(q) for q in rng.permutation(nq)[:3]]]
+    if nq >= 2 and r < 0.4:
+        names = ["cx", "swap"] if mode == "basis" else G2
+        return ["g", names[int(rng.integers(0, len(names)))], [int(q) for q in rng.permutation(nq)[:2]]]
+    if mode == "basis":
+        names = ["x", "z", "y"]
+    elif rng.random() < 0.5:
+        names = ["h", "h", "sx", "sxdg"]      # superposition-creating gates, so that measurements branch
+    else:
+        names = G1
+    return ["g", names[int(rng.integers(0, len(names)))], [int(rng.integers(0, nq))]]
+
+
+def rand_comp(rng, nq, mode):
+    """a composite gate: 2-4 gates of the set on 1..min(nq,4) local qubits, appended on a random qubit tuple"""
+    w = int(rng.integers(1, min(nq, 4) + 1))
+    body = []
+    for _ in range(int(rng.integers(2, 5))):
+        g = rand_gate(rng, w, mode)
+        body.append([g[1], g[2]])
+    return ["comp", body, [int(q) for q in rng.permutation(nq)[:w]]]
 
 
 def rand_prog(rng, nq, ncl, length, mode, max_nonunitary):
     """mode: 'uniform' | 'onebit' (all measurements into one clbit) | 'basis' (computational-basis gates only:
     every branch deterministic) | 'entangle' (GHZ-like prefix) | 'heavy' (mostly measure/reset) |
-    'plus' (h/sx layer first: every first measurement of a qubit branches)"""
+    'plus' (h/sx layer first: every first measurement of a qubit branches) |
+    'deep' (<= 3 qubits, a superposing gate before most measurements: many branches of small probability)"""
     prog = []
     nonu = 0
     onebit = int(rng.integers(0, ncl)) if ncl else 0
@@ -289,15 +458,18 @@ def rand_prog(rng, nq, ncl, length, mode, max_nonunitary):
                 prog.append(["g", ["h", "sx", "sxdg"][int(rng.integers(0, 3))], [q]])
     while len(prog) < length:
         r = rng.random()
-        w_meas = 0.45 if mode == "heavy" else 0.27
+        w_meas = 0.45 if mode in ("heavy", "deep") else 0.27
         w_reset = 0.2 if mode == "heavy" else 0.1
         if nonu >= max_nonunitary:
             w_meas = w_reset = 0.0
         if ncl == 0:
             w_meas = 0.0
         if r < w_meas:
+            q = int(rng.integers(0, nq))
+            if mode == "deep" and len(prog) + 1 < length:
+                prog.append(["g", ["h", "sx", "sxdg"][int(rng.integers(0, 3))], [q]])
             c = onebit if mode == "onebit" else int(rng.integers(0, ncl))
-            prog.append(["measure", int(rng.integers(0, nq)), c])
+            prog.append(["measure", q, c])
             nonu += 1
         elif r < w_meas + w_reset:
             prog.append(["reset", int(rng.integers(0, nq))])
@@ -305,18 +477,10 @@ def rand_prog(rng, nq, ncl, length, mode, max_nonunitary):
         elif r < w_meas + w_reset + 0.08:
             m = int(rng.integers(1, nq + 1))
             prog.append(["barrier", [int(q) for q in rng.permutation(nq)[:m]]])
-        elif nq >= 2 and rng.random() < 0.35:
-            names = ["cx", "swap"] if mode == "basis" else G2
-            a, b = (int(q) for q in rng.permutation(nq)[:2])
-            prog.append(["g", names[int(rng.integers(0, len(names)))], [a, b]])
+        elif mode != "deep" and rng.random() < 0.08:
+            prog.append(rand_comp(rng, nq, mode))
         else:
-            if mode == "basis":
-                names = ["x", "z", "y"]
-            elif rng.random() < 0.5:
-                names = ["h", "h", "sx", "sxdg"]      # superposition-creating gates, so that measurements branch
-            else:
-                names = G1
-            prog.append(["g", names[int(rng.integers(0, len(names)))], [int(rng.integers(0, nq))]])
+            prog.append(rand_gate(rng, nq, mode))
     return prog
 
 
@@ -327,6 +491,35 @@ def rand_unitary(rng, d):
     return q * ph
 
 
+def rand_tol_prog(rng, nq, ncl, length, params=None):
+    prog = []
+    nonu = 0
+    while len(prog) < length:
+        r = rng.random()
+        if r < 0.25 and nonu < 6:
+            prog.append(["measure", int(rng.integers(0, nq)), int(rng.integers(0, ncl))])
+            nonu += 1
+        elif r < 0.35 and nonu < 6:
+            prog.append(["reset", int(rng.integers(0, nq))])
+            nonu += 1
+        elif params is not None and r < 0.6:
+            name = f"p{len(params)}_{['b', 'a', 'c'][len(params) % 3]}"   # names not in creation order
+            params[name] = float(rng.uniform(-3.1, 3.1))
+            prog.append([["rxp", "ryp", "rzp"][int(rng.integers(0, 3))], name, int(rng.integers(0, nq))])
+        elif r < 0.55:
+            # rotation by a tiny angle: the 1-child has probability ~ theta^2/4 around the cut-off 1e-16
+            e = float(rng.choice([1e-10, 1e-9, 3e-9, 1e-8, 1.9e-8, 2.1e-8, 3e-8, 1e-7, 1e-6, 1e-5, 1e-4, 1e-3]))
+            prog.append(["ry", e * float(rng.choice([-1, 1])), int(rng.integers(0, nq))])
+        elif r < 0.8 or nq < 2:
+            u = rand_unitary(rng, 2)
+            prog.append(["u", [[float(z.real), float(z.imag)] for z in u.reshape(-1)], [int(rng.integers(0, nq))]])
+        else:
+            u = rand_unitary(rng, 4)
+            prog.append(["u", [[float(z.real), float(z.imag)] for z in u.reshape(-1)],
+                         [int(q) for q in rng.permutation(nq)[:2]]])
+    return prog, nonu
+
+
 def features(case):
     prog = case["prog"]
     writes = [i[2] for i in prog if i[0] == "measure"]
@@ -335,29 +528,53 @@ def features(case):
         f.append("bit_overwritten")
     if case["ncl"] > len(set(writes)):
         f.append("unused_clbits")
-    if any(i[0] == "reset" for i in prog):
-        f.append("reset")
-    if any(i[0] == "barrier" for i in prog):
-        f.append("barrier")
+    for name in ("reset", "barrier", "comp"):
+        if any(i[0] == name for i in prog):
+            f.append(name)
+    if any(i[0] == "g" and i[1] == "ccx" for i in prog) or any(i[0] == "comp" and any(g[0] == "ccx" for g in i[1]) for i in prog):
+        f.append("ccx")
+    if any(i[0] == "comp" and len(i[2]) >= 3 for i in prog):
+        f.append("composite_arity>=3")
+    if any(e[0] == "b" for e in case["qregs"] + case["cregs"] if not isinstance(e, int)):
+        f.append("bare_bits")
+    if len(case["qregs"]) >= 3 or len(case["cregs"]) >= 3:
+        f.append(">=3_bit_groups")
     seen2 = False
     for i in prog:
-        if i[0] == "g" and len(i[2]) == 2:
+        if i[0] in ("g", "comp") and len(i[2]) >= 2:
             seen2 = True
         if i[0] in ("measure", "reset") and seen2:
-            f.append("measure_after_2q_gate")
+            f.append("measure_after_multiqubit_gate")
             break
     return f
 
 
+def _try_run(w, case, sampler):
+    """build + run; a circuit that this Qiskit cannot even build (e.g. c_if removed) is skipped, not a crash"""
+    try:
+        build(case)
+    except Exception as e:  # noqa: BLE001
+        w.count("skipped.unbuildable", type(e).__name__)
+        return False
+    run_impl(case, sampler)
+    return True
+
+
 def generate(rng, tier, outdir):
     w = CaseWriter(outdir, IMPORTS, CASE_TYPES)
-    w.SHARD = 200
+    w.SHARD = 160
     quick = tier == "quick"
-    n_main = 560 if quick else 6000
-    n_bad = 160 if quick else 1500
+    n_main = 640 if quick else 6000
+    n_deep = 40 if quick else 400
+    n_bad = 200 if quick else 1500
     n_tol = 160 if quick else 1500
-    max_nonu = 7 if quick else 10
-    modes = ["uniform", "uniform", "onebit", "basis", "entangle", "heavy", "plus", "plus"]
+    n_multi = 60 if quick else 600
+    max_nonu = 8 if quick else 10
+    modes = ["uniform", "uniform", "onebit", "basis", "entangle", "heavy", "heavy", "plus", "plus", "plus"]
+    sampler = ExactSampler()        # ONE instance reused by every call of this run
+
+    def clean(v):
+        w.contract("judge_accepts_clean_case", not v["violates"])
 
     # ---------------- main stream: exactly representable circuits ----------------
     fixed = [
@@ -368,22 +585,37 @@ def generate(rng, tier, outdir):
         dict(nq=1, ncl=1, prog=[["g", "h", [0]], ["measure", 0, 0]] * 5),
         dict(nq=3, ncl=5, prog=[["g", "h", [0]], ["g", "cx", [0, 1]], ["g", "cx", [1, 2]], ["measure", 2, 4], ["reset", 2],
                                 ["barrier", [0, 1, 2]], ["g", "sx", [0]], ["measure", 0, 4], ["measure", 1, 1]]),
+        # branches of probability 2^-10: ten h;measure rounds into five bits
+        dict(nq=1, ncl=5, prog=[x for i in range(10) for x in (["g", "h", [0]], ["measure", 0, i % 5])]),
+        # x; measure->c0 twice; then into c1 (same value written twice, qubit observed afterwards)
+        dict(nq=1, ncl=2, prog=[["g", "x", [0]], ["measure", 0, 0], ["measure", 0, 0], ["measure", 0, 1]]),
+        dict(nq=3, ncl=2, prog=[["g", "h", [0]], ["g", "h", [1]], ["g", "ccx", [1, 0, 2]], ["g", "h", [0]], ["measure", 2, 0], ["measure", 0, 1]]),
+        dict(nq=4, ncl=4, prog=[["comp", [["h", [0]], ["cx", [0, 2]], ["s", [1]]], [3, 1, 0]],
+                                ["measure", 0, 0], ["measure", 1, 1], ["measure", 2, 2], ["measure", 3, 3]]),
     ]
-    for it in range(n_main):
+    for it in range(n_main + n_deep):
         if it < len(fixed):
             case = dict(fixed[it])
             mode = "fixed"
-            case["qregs"], case["cregs"] = [case["nq"]], ([case["ncl"]] if case["ncl"] else [])
-        else:
+            case["qregs"], case["cregs"] = [["r", case["nq"]]], ([["r", case["ncl"]]] if case["ncl"] else [])
+        elif it < n_main:
             nq = int(rng.integers(1, 6))
             ncl = 0 if rng.random() < 0.07 else int(rng.integers(1, 6))
             length = int(rng.integers(0, 21))
             mode = modes[int(rng.integers(0, len(modes)))]
             case = dict(nq=nq, ncl=ncl, qregs=split_regs(rng, nq), cregs=split_regs(rng, ncl),
                         prog=rand_prog(rng, nq, ncl, length, mode, max_nonu))
+        else:
+            nq = int(rng.integers(1, 4))
+            ncl = int(rng.integers(1, 6))
+            mode = "deep"
+            case = dict(nq=nq, ncl=ncl, qregs=split_regs(rng, nq), cregs=split_regs(rng, ncl),
+                        prog=rand_prog(rng, nq, ncl, 20, mode, 10 if quick else 12))
         case["kind"] = "sim"
-        run_impl(case)
+        if not _try_run(w, case, sampler):
+            continue
         v = judge(case)
+        clean(v)
         fn, sam = case["impl_fn"], case["impl_sampler"]
         lit = (case["nq"], case["ncl"], coq_prog(case["prog"]), coq_answer(fn), coq_answer(sam), not v["violates"])
         nout = len(fn[1]) if fn[0] == "ok" else 0
@@ -394,7 +626,7 @@ def generate(rng, tier, outdir):
         w.count("sim.ncl", case["ncl"])
         w.count("sim.len", len(case["prog"]))
         w.count("sim.nonunitary", nonu)
-        w.count("sim.outcomes", nout)
+        w.count("sim.outcomes", nout if nout < 8 else (">=8" if nout < 32 else ">=32"))
         w.count("sim.fn", fn[0])
         w.count("sim.sampler", sam[0])
         w.count("sim.oracle", "violates" if v["violates"] else "agrees")
@@ -404,34 +636,51 @@ def generate(rng, tier, outdir):
             w.count("sim.deterministic", len(fn[1]) == 1)
             keys = [o for o, _ in fn[1]]
             w.count("sim.dict_order_sorted", keys == sorted(keys))
+            pmin = min(p for _, p in fn[1])
+            w.count("sim.min_outcome_prob", ">=1/4" if pmin >= 0.25 else ">=2^-6" if pmin >= 2 ** -6 else ">=2^-10" if pmin >= 2 ** -10 else "<2^-10")
+            w.count("sim.all_probs_in{0,1/2^k}", all(abs(np.log2(p) - round(np.log2(p))) < 1e-9 for _, p in fn[1]))
         # Qiskit base-class contract assumed by Model.sampler: refusal exactly when no clbits / no Measure
-        has_measure = any(i[0] == "measure" for i in case["prog"])
         w.contract("BaseSamplerV1.run refuses iff no clbits or no Measure (valid circuits)",
-                   (sam[0] == "refused") == (case["ncl"] == 0 or not has_measure))
+                   (sam[0] == "refused") == sampler_prevalidation_refuses(case))
 
     # ---------------- malformed stream: conditioned operations, clbits on gates ----------------
+    bad_kinds = ["cif", "cifreg", "cifmeasure", "cifreset", "ifelse", "ifelse2", "ifexpr", "while", "switch", "clgate"]
     for it in range(n_bad):
         nq = int(rng.integers(1, 6))
         ncl = int(rng.integers(1, 6))
         length = int(rng.integers(0, 16))
         case = dict(kind="sim", nq=nq, ncl=ncl, qregs=split_regs(rng, nq), cregs=split_regs(rng, ncl),
                     prog=rand_prog(rng, nq, ncl, length, "uniform", 5))
+        creg_ids = [i for i, e in enumerate(case["cregs"]) if e[0] == "r"]
         nbad = int(rng.integers(1, 3))
         kinds = []
         for _ in range(nbad):
-            kind = ["cif", "cifreg", "cifmeasure", "ifelse", "clgate"][int(rng.integers(0, 5))]
+            kind = bad_kinds[int(rng.integers(0, len(bad_kinds)))]
+            if kind == "cifreg" and not creg_ids:
+                kind = "cif"
             g = G1[int(rng.integers(0, len(G1)))]
             q = int(rng.integers(0, nq))
             c = int(rng.integers(0, ncl))
+            val = int(rng.integers(0, 2))
             if kind == "cif":
-                ins = ["cif", g, [q], c, int(rng.integers(0, 2))]
+                ins = ["cif", g, [q], c, val]
             elif kind == "cifreg":
-                reg = int(rng.integers(0, len(case["cregs"])))
-                ins = ["cifreg", g, [q], reg, int(rng.integers(0, 1 << case["cregs"][reg]))]
+                reg = int(rng.integers(0, len(creg_ids)))
+                ins = ["cifreg", g, [q], reg, int(rng.integers(0, 1 << case["cregs"][creg_ids[reg]][1]))]
             elif kind == "cifmeasure":
-                ins = ["cifmeasure", q, c, int(rng.integers(0, ncl)), int(rng.integers(0, 2))]
+                ins = ["cifmeasure", q, c, int(rng.integers(0, ncl)), val]
+            elif kind == "cifreset":
+                ins = ["cifreset", q, c, val]
             elif kind == "ifelse":
-                ins = ["ifelse", c, int(rng.integers(0, 2)), g, [q]]
+                ins = ["ifelse", c, val, g, [q]]
+            elif kind == "ifelse2":
+                ins = ["ifelse2", c, val, g, [q], G1[int(rng.integers(0, len(G1)))]]
+            elif kind == "ifexpr":
+                ins = ["ifexpr", c, g, [q]]
+            elif kind == "while":
+                ins = ["while", c, val, q]
+            elif kind == "switch":
+                ins = ["switch", c, g, [q]]
             else:
                 k = int(rng.integers(0, min(nq, 2) + 1))
                 ins = ["clgate", [int(x) for x in rng.permutation(nq)[:k]],
@@ -439,8 +688,10 @@ def generate(rng, tier, outdir):
             pos = int(rng.integers(0, len(case["prog"]) + 1))
             case["prog"].insert(pos, ins)
             kinds.append(kind)
-        run_impl(case)
+        if not _try_run(w, case, sampler):
+            continue
         v = judge(case)
+        clean(v)
         fn, sam = case["impl_fn"], case["impl_sampler"]
         lit = (nq, ncl, coq_prog(case["prog"]), coq_answer(fn), coq_answer(sam), not v["violates"])
         w.add("malformed", "chk_sim", lit, case, nontrivial=True)
@@ -455,50 +706,77 @@ def generate(rng, tier, outdir):
     for it in range(n_tol):
         nq = int(rng.integers(1, 5))
         ncl = int(rng.integers(1, 6))
-        length = int(rng.integers(1, 15))
-        prog = []
-        nonu = 0
-        while len(prog) < length:
-            r = rng.random()
-            if r < 0.25 and nonu < 6:
-                prog.append(["measure", int(rng.integers(0, nq)), int(rng.integers(0, ncl))])
-                nonu += 1
-            elif r < 0.35 and nonu < 6:
-                prog.append(["reset", int(rng.integers(0, nq))])
-                nonu += 1
-            elif r < 0.55:
-                # rotation by a tiny angle: the 1-child has probability ~ theta^2/4 around the cut-off 1e-16
-                e = float(rng.choice([1e-10, 1e-9, 3e-9, 1e-8, 1.9e-8, 2.1e-8, 3e-8, 1e-7, 1e-6, 1e-4]))
-                prog.append(["ry", e * float(rng.choice([-1, 1])), int(rng.integers(0, nq))])
-            elif r < 0.8 or nq < 2:
-                u = rand_unitary(rng, 2)
-                prog.append(["u", [[float(z.real), float(z.imag)] for z in u.reshape(-1)], [int(rng.integers(0, nq))]])
-            else:
-                u = rand_unitary(rng, 4)
-                prog.append(["u", [[float(z.real), float(z.imag)] for z in u.reshape(-1)],
-                             [int(q) for q in rng.permutation(nq)[:2]]])
-        case = dict(kind="tol", nq=nq, ncl=ncl, qregs=[nq], cregs=[ncl], prog=prog)
-        run_impl(case)
+        prog, nonu = rand_tol_prog(rng, nq, ncl, int(rng.integers(1, 15)))
+        case = dict(kind="tol", nq=nq, ncl=ncl, qregs=split_regs(rng, nq), cregs=split_regs(rng, ncl), prog=prog)
+        if not _try_run(w, case, sampler):
+            continue
+        v = judge(case)
+        clean(v)
         truth = true_distribution(case)
-        fn = case["impl_fn"]
-        lit = (coq_answer(fn), [(Nc(o), Qc(Fraction(p))) for o, p in sorted(truth.items())])
+        fn, sam = case["impl_fn"], case["impl_sampler"]
+        legit = sam[0] == "refused" and sampler_prevalidation_refuses(case)
+        lit = (coq_answer(fn), Opt(coq_answer(sam), some=not legit), coq_pairs(sorted(truth.items())))
         w.add("tolerance", "chk_dist", lit, case, nontrivial=nonu > 0)
         w.count("tol.nonunitary", nonu)
         w.count("tol.fn", fn[0])
+        w.count("tol.sampler", sam[0])
         if fn[0] == "ok":
             s = sum(p for _, p in fn[1])
             w.count("tol.mass_deficit", "0" if s == 1 else ("<=1e-15" if abs(s - 1) <= 1e-15 else "<=1e-12" if abs(s - 1) <= 1e-12 else ">1e-12"))
             w.count("tol.keys_dropped_vs_oracle", len([o for o in truth if o not in dict(map(tuple, fn[1]))]))
+            small = [p for p in truth.values() if 1e-16 < p < 1e-6]
+            w.count("tol.has_outcome_prob_in(1e-16,1e-6)", bool(small))
+
+    # ---------------- sampler stream: several circuits / parameter_values / the reused instance ----------------
+    for it in range(n_multi):
+        ncirc = int(rng.integers(2, 4))
+        subs = []
+        for j in range(ncirc):
+            nq = int(rng.integers(1, 4))
+            ncl = int(rng.integers(1, 4))
+            params = {} if rng.random() < 0.75 else None
+            prog, _ = rand_tol_prog(rng, nq, ncl, int(rng.integers(1, 9)), params)
+            prog.append(["measure", int(rng.integers(0, nq)), int(rng.integers(0, ncl))])   # V1 validation needs a Measure
+            if params is not None and len(params) < 2:
+                # at least two parameters on measured qubits, so that permuted parameter_values show
+                for extra in range(2 - len(params)):
+                    name = f"z{extra}_{'ba'[extra]}"
+                    params[name] = float(rng.uniform(0.3, 2.8))
+                    q = int(rng.integers(0, nq))
+                    prog[0:0] = [["rxp", name, q]]
+                    prog.append(["measure", q, int(rng.integers(0, ncl))])
+            subs.append(dict(kind="tol", nq=nq, ncl=ncl, qregs=split_regs(rng, nq), cregs=split_regs(rng, ncl),
+                             prog=prog, params=params or {}))
+        case = dict(kind="multi", circuits=subs)
+        try:
+            for sub in subs:
+                build(sub)
+        except Exception as e:  # noqa: BLE001
+            w.count("skipped.unbuildable", type(e).__name__)
+            continue
+        run_impl(case, sampler)
+        v = judge(case)
+        clean(v)
+        ans = case["impl_multi"]
+        lit = (Res("ok", [coq_pairs(d) for d in ans[1]]) if ans[0] == "ok" else Res(ans[0]),
+               [coq_pairs(sorted(true_distribution(sub).items())) for sub in subs])
+        w.add("sampler", "chk_multi", lit, case, nontrivial=True)
+        w.count("multi.circuits", ncirc)
+        w.count("multi.parametrised_circuits", sum(1 for s in subs if s["params"]))
+        w.count("multi.answer", ans[0])
 
     return w.finish(
-        rule="sim: random circuits on 1..5 qubits, 0..5 clbits (1-2 registers each), 0..20 instructions over "
-        "{x,y,z,h,s,sdg,sx,sxdg,cx,cz,swap,measure,reset,barrier} in modes uniform / all measurements into one bit / "
-        "computational-basis only (deterministic branches) / GHZ prefix (entangled measurements) / measure-reset heavy / h-sx layer first, plus "
-        "fixed seeds; both simulate_statevector_outcomes and ExactSampler are recorded; the Coq checker evaluates the model "
-        "instantiated with QSim (exact Q(sqrt2)(i) amplitudes), compares keys in dict order exactly and probabilities within 1e-12, "
-        "audits that every measured QSim probability is an exact rational, and requires the harness's density-matrix oracle to agree. "
-        "malformed: the same with 1-2 conditioned operations (c_if on bit/register, conditioned measure, if_test) or opaque "
-        "instructions holding clbits inserted anywhere; expected Refused. tolerance: arbitrary 1-2 qubit unitaries and tiny "
-        "rotations around the 1e-16 cut-off; implementation compared (in Coq, as maps, 1e-9) with the density-matrix oracle only. "
+        rule="sim: random circuits on 1..5 qubits, 0..5 clbits (1-3 registers / bare bits each), 0..20 instructions over "
+        "{x,y,z,h,s,sdg,sx,sxdg,cx,cz,swap,ccx, composite gates (to_gate) of these, measure,reset,barrier} in modes uniform / all "
+        "measurements into one bit / computational-basis only (deterministic branches) / GHZ prefix (entangled measurements) / "
+        "measure-reset heavy / h-sx layer first / deep (<=3 qubits, up to 10-12 branching measurements), plus fixed seeds; both "
+        "simulate_statevector_outcomes and ExactSampler (one reused instance) are recorded; the Coq checker evaluates the model "
+        "instantiated with QSim (exact Q(sqrt2)(i) amplitudes), compares as finite maps (key sets exactly, no duplicate keys, "
+        "probabilities within 1e-12), audits that every measured QSim probability is an exact rational, and requires the harness's "
+        "density-matrix oracle to agree. malformed: the same with 1-2 conditioned operations (c_if on bit/register, conditioned "
+        "measure/reset, if_test with/without else, expr condition, while_loop, switch) or opaque instructions holding clbits inserted "
+        "anywhere; expected Refused. tolerance: arbitrary 1-2 qubit unitaries and tiny rotations around the 1e-16 cut-off; function "
+        "and sampler compared (in Coq, as maps, 1e-9) with the density-matrix oracle only. sampler: one run over 2-3 circuits with "
+        "parametrised rotations and parameter_values; quasi_dists[i] vs the oracle of the i-th bound circuit. "
         "distinct = distinct Coq case literal; non-trivial = at least one measure/reset and an answer"
     )
